@@ -354,9 +354,8 @@ fn spans_of(len: usize, all: bool) -> Vec<(usize, usize)> {
             }
         }
         // start = end + 1 (C10: yields no match)
-        if len >= 1 {
-            v.push((len, len - 1));
-            v.push((1, 0));
+        for k in 0..len {
+            v.push((k + 1, k));
         }
     }
     v
@@ -369,20 +368,8 @@ pub fn check_hay(ctx: &Ctx, built: &[(Cfg, Built)], hay: &[u8], aspects: u32) {
     let spans = spans_of(hay.len(), aspects & A_SPANS != 0 && hay.len() <= SPAN_CAP.load(std::sync::atomic::Ordering::Relaxed));
     let any = !oracle::occs_in(ctx.pats, ctx.ci, hay, 0, hay.len(), false).is_empty();
     for &(s, e) in &spans {
-        if s > e {
-            // C10: start one past end => no match, for every API
-            for (cfg, b) in built {
-                if !cfg.supports(false) {
-                    continue;
-                }
-                let got = guard(|| b.try_find(hay, s, e, false, false));
-                if !matches!(&got, Ok(Ok(None))) {
-                    report_fail(ctx, cfg, "find", hay, s, e, false, &None::<M>, &format!("{:?}", got));
-                }
-                ctx.rep.case(false);
-            }
-            continue;
-        }
+        // exhausted spans (start == end + 1, C10/C14) go through the same aspects: the definition
+        // yields nothing for them
         for anch in [false, true] {
             if anch && aspects & (A_ANCH | A_OVANCH) == 0 {
                 continue;
